@@ -13,6 +13,8 @@ mod mutate;
 mod schemagen;
 mod schemaread;
 mod intro;
+mod iofault;
+mod crypt;
 
 use std::collections::BTreeMap;
 use std::io::Write;
@@ -26,10 +28,12 @@ struct Args {
     size: usize,
     filter: Option<String>,
     tag: Option<String>,
+    /// (k, n): only registry entries whose index is k modulo n
+    shard: Option<(usize, usize)>,
 }
 
 fn parse_args() -> Args {
-    let mut a = Args { cmd: String::new(), seed: 1, cases: 10, size: 12, filter: None, tag: None };
+    let mut a = Args { cmd: String::new(), seed: 1, cases: 10, size: 12, filter: None, tag: None, shard: None };
     let mut it = std::env::args().skip(1);
     a.cmd = it.next().unwrap_or_else(|| "help".into());
     while let Some(k) = it.next() {
@@ -40,6 +44,11 @@ fn parse_args() -> Args {
             "--size" => a.size = val().parse().unwrap(),
             "--filter" => a.filter = Some(val()),
             "--tag" => a.tag = Some(val()),
+            "--shard" => {
+                let v = val();
+                let (k, n) = v.split_once('/').expect("--shard k/n");
+                a.shard = Some((k.parse().unwrap(), n.parse().unwrap()));
+            }
             other => panic!("unknown arg {}", other),
         }
     }
@@ -48,6 +57,9 @@ fn parse_args() -> Args {
 
 fn selected<'a>(reg: &'a [Entry], a: &Args) -> Vec<&'a Entry> {
     reg.iter()
+        .enumerate()
+        .filter(|(i, _)| a.shard.map(|(k, n)| i % n == k).unwrap_or(true))
+        .map(|(_, e)| e)
         .filter(|e| a.filter.as_ref().map(|f| e.name.contains(f.as_str())).unwrap_or(true))
         .filter(|e| a.tag.as_ref().map(|t| e.tags.contains(&t.as_str())).unwrap_or(true))
         .collect()
@@ -97,6 +109,59 @@ fn main() {
                 for &v in &e.versions {
                     writeln!(out, "(packed @{} {})\t(ok {})", e.name, v, (e.packed)(v)).unwrap();
                 }
+            }
+        }
+        // C14: encrypted files, mutated
+        "encfiles" => {
+            let mut stats: BTreeMap<String, u64> = BTreeMap::new();
+            let mut emit = |out: &mut dyn Write, lines: Vec<String>, stats: &mut BTreeMap<String, u64>| {
+                for l in lines {
+                    if let Some(k) = l.strip_prefix("#stat ") {
+                        let (k, v) = k.rsplit_once(' ').unwrap();
+                        *stats.entry(k.to_string()).or_default() += v.parse::<u64>().unwrap();
+                    } else {
+                        writeln!(out, "{}", l).unwrap();
+                    }
+                }
+            };
+            for e in selected(&reg, &a) {
+                let cur = e.current();
+                let mut r = Rng::new(name_seed(a.seed, &e.name, 14));
+                for i in 0..a.cases {
+                    let sz = if i % 4 == 3 { a.size * 4 } else { a.size };
+                    let lines = (e.encfile)(&e.name, &mut r, sz, cur, i == 0 && e.tags.contains(&"lib"), !e.tags.contains(&"ignore"));
+                    emit(&mut out, lines, &mut stats);
+                }
+            }
+            if a.shard.map(|(k, _)| k == 0).unwrap_or(true) && a.filter.is_none() {
+                let mut r = Rng::new(name_seed(a.seed, "big", 14));
+                let lines = crypt::big_cases(&mut r, if a.size > 20 { 4 } else { 2 }, true);
+                emit(&mut out, lines, &mut stats);
+            }
+            for (k, v) in stats {
+                writeln!(out, "#stat {} {}", k, v).unwrap();
+            }
+        }
+        // C08: I/O faults and chunking over all containers
+        "iofault" => {
+            let mut stats: BTreeMap<String, u64> = BTreeMap::new();
+            for e in selected(&reg, &a) {
+                let cur = e.current();
+                let mut r = Rng::new(name_seed(a.seed, &e.name, 8));
+                for i in 0..a.cases {
+                    let sz = if i % 4 == 3 { a.size * 4 } else { a.size };
+                    for l in (e.iofault)(&e.name, &mut r, sz, cur, 3, !e.tags.contains(&"ignore")) {
+                        if let Some(k) = l.strip_prefix("#stat ") {
+                            let (k, v) = k.rsplit_once(' ').unwrap();
+                            *stats.entry(k.to_string()).or_default() += v.parse::<u64>().unwrap();
+                        } else {
+                            writeln!(out, "{}", l).unwrap();
+                        }
+                    }
+                }
+            }
+            for (k, v) in stats {
+                writeln!(out, "#stat {} {}", k, v).unwrap();
             }
         }
         // C17: introspection self-consistency and navigation histories
